@@ -8,7 +8,8 @@ CHECKS = {
    text='Theorems (all n in [0,2^64), all integers z, all data lengths, all command lists of any length) about the Gallina model of '
         'int_to_varbyteint/varbyteint_to_int/encode_num/decode_num/data_pack/Script.serialize/Script.parse: round trip, equality with '
         'the Bitcoin Core forms, minimality, prefix-freeness; the model is tied to the code by differential execution of every modelled '
-        'function (boundary-exhaustive + random) on each run.',
+        'function (boundary-exhaustive + random) on each run.'
+        ' Round 3: argument forms of the wire helpers (str in Latin-1 / UTF-8 across the CompactSize boundaries counted in bytes and characters, bytearray, memoryview, int-likes), judged by an own normaliser and CompactSize reader.',
    design_ref='DESIGN.md section 6, C18',
    note='Trusted: Coq kernel, extraction (ExtrOcamlBasic, ExtrOcamlZBigInt), OCaml driver, Python harness. Closed under the global '
         'context (no axioms). Script.parse round trip is proved under the guard inert/no whole-script heuristic; the excluded classes are '
@@ -24,7 +25,8 @@ CHECKS = {
         'substituted data-part character or one adjacent transposition is always rejected (syndrome non-zero for any length; never the other constant for length <= 90), '
         'as are mixed case, over-length and foreign characters. '
         '_bech32_polymod and convertbits are re-translated from the source on every run and proved equal to the model (Glue/Bech32Glue.v). '
-        'Tie: differential correspondence on valid strings of every kind and every single-character edit of sampled strings.',
+        'Tie: differential correspondence on valid strings of every kind and every single-character edit of sampled strings.'
+        ' Round 3: payload-level constructions for every Base58Check acceptance path (junk appended / prepended / inserted with and without recomputed checksum, one byte short, each checksum byte altered) and the Bech32 grid (witness versions 0..31 x both constants x program lengths x every optional argument): fixed_length_accept_canonical, fixed_length_other_length_refused.',
    design_ref='DESIGN.md section 6 C11, section 9',
    note='Closed under the global context. Bech32 encoder-side theorems are stated for the input convention of pubkeyhash_to_addr_bech32 (bare 20/32/40-byte '
         'program, else header+program; program lengths 18/30/38 excluded = known finding bech32_enc_header_ambiguity). Not proved (sweeps only): Bech32 '
@@ -43,7 +45,8 @@ CHECKS = {
         ' Environment and sessions: csv_agrees_all_env / cltv_agrees_all_env (every stack and environment), lib_csv_is_bip112 / lib_cltv_is_bip65 in closed form over bit 31, bit 22 '
         'and the low 16 bits, csv_ignores_stray_sequence_bits; evaluation_session_is_map, session_never_valid_when_core_rejects; interpreter_touches_no_module_state (AST footprint '
         'of evaluate / Stack / encode_num / Signature.verify regenerated each run: no module- or class-level mutable state, no memoising decorators). Tie: csvbits / cltvenv sweeps over '
-        'the BIP68/112/65 bit structure, ses requests (signature replay under other messages, objects re-evaluated, changing env_data) judged by an own secp256k1 ECDSA over the message of each step.',
+        'the BIP68/112/65 bit structure, ses requests (signature replay under other messages, objects re-evaluated, changing env_data) judged by an own secp256k1 ECDSA over the message of each step.'
+        ' Round 3: p2sh requests: spends serialised by the harness with non-minimal pushes, parsed by the library and evaluated, judged by an own BIP16 evaluator: p2sh_commitment_is_hash_of_pushed_bytes, p2sh_reserialised_redeemscript_rejected; known finding pushed_data_executed.',
    design_ref='DESIGN.md section 6 C19, section 9',
    note='Closed under the global context. Conditionals are proved on the class `structured` (leaves of executed AND non-executed branches in the straight-line '
         'fragment). The only dynamic guard of agree_if is that OP_IF/OP_NOTIF never meets an empty stack (the library raises IndexError there; '
@@ -62,7 +65,8 @@ CHECKS = {
         ' Database level: a file holds several wallets, each with a session view and committed rows: durable_step (after ANY operation, delete included, the committed rows are what '
         'the live object sees), second_object_reads_live, reload_equal_every_op, db_inv_reachable, db_ledger_consistent, other_wallets_only_marked, delete_reopens_only_its_inputs. '
         'Tie: the first reading after every library call is taken by a SECOND Wallet object / forked process before the live object is touched; unobserved runs; funding transactions with '
-        'several wallet outputs spent by different transactions then deleted / re-stored / imported; several wallets in one file registering the same outpoints in both orders.',
+        'several wallet outputs spent by different transactions then deleted / re-stored / imported; several wallets in one file registering the same outpoints in both orders.'
+        ' Round 3: key kinds without key material (imported addresses, public-only keys, wallets from an account xpub), reload fidelity of imported transactions (version 2/3, locktime, sequences; own raw parser), wallets whose default account is not 0: named_account_ignores_default; known finding import_raw_txid_of_version1.',
    design_ref='DESIGN.md section 6 C08, section 9',
    note='Partial: SQLAlchemy session staleness, sqlite isolation and object lifetime are runtime behaviour reached only through the history differential (testing). '
         'inv_step carries the guard op_ok (evaluated by the driver on every real step); excluded classes restore_resets_spent and cross_account_output (one account per '
@@ -88,7 +92,8 @@ CHECKS = {
         'source on every run (Gen/GenC02.v): parsed_threshold_is_script_threshold (1 <= m <= 16, and up to 127 after fix C02-7), tree_digest_reads_serialised_attributes, '
         'write_seen_iff_serialised, input_verdict_is_serialised_verdict, probe_object_is_broadcast (for every single attribute write on a signed transaction the verdict of the '
         'object equals the consensus verdict on the bytes it would broadcast). Tie: thr requests (m, n in {1,2,14..17,20}, signatures stripped / duplicated / reordered in raw bytes), '
-        'every attribute of Transaction / Input / Output written alone; the oracle judges the BYTES. Known class object_bytes_out_of_sync (attributes read by verify() only).',
+        'every attribute of Transaction / Input / Output written alone; the oracle judges the BYTES. Known class object_bytes_out_of_sync (attributes read by verify() only).'
+        ' Round 3: mut requests (every re-signing helper from every sequence configuration, called once and twice; resign_all_after_field_change_verifies) and sigf requests (signatures handed in as DER / r||s / hex / objects with chosen leading bytes of r and s); known finding relative_locktime_resigns_one_input.',
    design_ref='DESIGN.md section 6 C02, section 9',
    note='Closed under the global context. ECDSA unforgeability is not claimed: it is the explicit premise bound_to of stale_signatures_fail / tamper_detected (C13 covers '
         'the signature layer). sign_history_* are proved under exactly the guards of the two known completeness findings, each with _refuted Examples: resign_free_all '
@@ -108,7 +113,8 @@ CHECKS = {
         ' Wallet HISTORIES (Model/TxCreateHistory.v: broadcast / utxos_update with arbitrary provider listings / utxo_add / reopen / bumpfee, send as two-phase creation with one '
         'argument record, explicit-input shapes): history_inputs_unspent_distinct_confirmed, history_invariant, utxos_update_keeps_consumed_spent, send_recreation_keeps_arguments, '
         'send_result_respects_arguments, explicit_inputs_use_wallet_values (guarded). Tie: hist requests on real wallets with decoy UTXO sets (under-confirmed / other key / other '
-        'account outputs sufficient alone), caller values disagreeing with the wallet records; the oracle keeps its own books and parses the raw transactions itself.',
+        'account outputs sufficient alone), caller values disagreeing with the wallet records; the oracle keeps its own books and parses the raw transactions itself.'
+        ' Round 3: recipient amounts in every accepted form (value strings with denominators, Value objects, floats, Output objects) judged by exact decimal arithmetic; conflicting stored transactions with delete in both orders: delete_keeps_conflicting_spend_spent, delete_never_reopens_conflicting_spend.',
    design_ref='DESIGN.md section 6 C07, section 9',
    note='Closed under the global context. SQL tie order, signing, address encoding and int64 wrap are not modelled (correspondence only). Four known findings '
         '(explicit_inputs_unchecked, fee_rate_checked_on_estimate, explicit_input_not_in_wallet, bumpfee_replacement_unverified) with refutation witnesses; three defects repaired by fix: commits.',
@@ -136,7 +142,8 @@ CHECKS = {
         '(entry_params, call_forwards) and interpreted fail-closed: xpublic_view_clean, public_master_args_clean, public_master_multisig_clean, wif_public_args_clean, '
         'hd_wif_args_clean, wallet_public_master_args_clean for ALL argument values that do not ask for private output; view_entry_points_glue makes a new parameter of a '
         'public-named function or a mis-forwarded keyword break a proof. Tie: pvk / pvw requests call every reviewed view entry point with the product of argument values '
-        'and scan for the source secret and every private key on the derivation path.',
+        'and scan for the source secret and every private key on the derivation path.'
+        ' Round 3: public PATH requests (subkey_for_path \'M\' spellings: public_path_view_clean, subkey_for_path_source_glue), default exports taken after relationships were loaded (database_rows_text_glue: the presentation methods of every class of db.py equal frozen copies), explicit prefix= on public wif exports with base58-decoded scan; known finding dbkey_in_row_dict.',
    design_ref='DESIGN.md section 6 C16, section 9',
    note='Partial: Python object graph, pickle, sqlite file layout are runtime, covered by the scan (testing). One-way steps (EC multiplication, BIP38 '
         'encryption) are declassification points of the model. One known finding (dbkey_repr_private_wif). Closed under the global context.',
@@ -151,7 +158,8 @@ CHECKS = {
         ' Derivation SESSIONS on one HDKey object and the objects derived from it (public copy, children): derivation_session_is_function, derivation_session_repeatable, '
         'public_object_calls, public_copy_never_private (whatever was called before, nothing obtained from a public-only object is private and a hardened request fails), '
         'source_is_stateless (re-read from /repo each run: the derivation methods write nothing on self, public() is a deepcopy that clears the private fields), '
-        'wif_child_index_is_serialization. Tie: sess requests with every start form, spelling and export between derivations, compared step by step.',
+        'wif_child_index_is_serialization. Tie: sess requests with every start form, spelling and export between derivations, compared step by step.'
+        ' Round 3: every construction form of the start key (19 private + 5 public forms incl. Key/HDKey objects with chain=): construction_is_callers_key, construction_derives_callers_children, construction_ignores_imported_objects_chain.',
    design_ref='DESIGN.md section 6 C03, section 9',
    note='The executable secp256k1 instance is NOT proved to satisfy the group laws and primality of n is not proved (no EC/primality library installed): the '
         'commutation theorems carry group_laws as a premise. Hash transcriptions are validated against hashlib, not proved. Closed under the global context. '
@@ -181,7 +189,8 @@ CHECKS = {
         'skips_are_skipped, order_respects_priority, wrappers_do_not_fabricate (guarded) and unguarded *_origins theorems listing every source of a '
         'returned value, cache_returns_what_was_stored. Cache read paths modelled as they are (insertion order, ORDER BY (block_height, index) with NULL first, after_txid, limit, last_block, spent flags, n_txs/n_utxos bookkeeping, block pages): cache_returns_what_was_stored (for every stored set with arbitrary heights, several per block, every after_txid and limit the cached answer is the slice a provider would return), cached_transactions_are_the_stored_slice, cached_utxos_are_the_stored_outputs, gettransactions_served_from_cache, gettransactions_origins, '
         'gettransactions_never_partial, getutxos_never_partial, cached_block_page_is_the_filed_page, getblock_origins, source_facts_cache_reads (22 comparison operators and ORDER BY lists re-read from services.py on every run). Tie: exhaustive outcome assignments for k<=3 fake providers x settings x priority orders against '
-        'the real Service with a sqlite cache; control-flow facts re-read from the source (GenService).',
+        'the real Service with a sqlite cache; control-flow facts re-read from the source (GenService).'
+        ' Round 3: http mode: the repository\'s own Blockstream / Mempool / Blocksmurfer clients over a scripted requests transport (every status x body, timeouts, connection errors), oracle-level; known finding http_ok_status_body_not_an_answer.',
    design_ref='DESIGN.md section 6 C20, section 9',
    note='Partial: clock, HTTP and sqlite are runtime (a timeout is a Raise). gettransactions/getblock/address index not modelled. Six known findings (False or '
         'invented values at the error limit; pinned by an existing test so not repairable under the constraints). Closed under the global context.',
@@ -218,7 +227,8 @@ CHECKS = {
         ' Reach and refusals (BIP32 derives only downwards): request_outside_reach_refused, handed_out_key_is_at_documented_path_for_requested_type (every configuration: master / '
         'account-level private / account-level public / single / multisig), request_for_another_witness_type_refused, new_account_needs_the_private_master, '
         'key_request_guards_are_the_documented_ones (the guards of keys_for_path / new_account regenerated from wallets.py equal a frozen copy). Tie: every wallet configuration x '
-        'every key-handing entry point x fitting and non-fitting arguments, each misfit asked twice; eight known classes of requests the library answers although it should refuse.',
+        'every key-handing entry point x fitting and non-fitting arguments, each misfit asked twice; eight known classes of requests the library answers although it should refuse.'
+        ' Round 3: a frozen corpus of seeds (found by search with the harness\'s own BIP32) whose private key / chain code / public x / fingerprint starts with zero bytes at each path level, BIP32 vectors 1-4, explicit full paths naming an account: hardened_parent_key_is_serialised_on_32_bytes, private_key_serialisation_is_injective.',
    design_ref='DESIGN.md section 6 C09, section 9',
    note='Density of indices over implicit-only histories and watch-only/full agreement of public keys (needs ckd_commute, C03) are checked by the oracle, not '
         'proved. Multisig key books are C10. Two defects repaired by fix: commits. Closed under the global context.',
@@ -233,7 +243,8 @@ CHECKS = {
         'oracle protocol (driver asks, harness answers scrypt/AES from hashlib and a FIPS-197 AES), published BIP38 vectors, all networks, an adversarial passphrase stream '
         '(hex-looking text, digits, blanks, NUL, 64+ bytes, NFC-unstable, bytes objects) through every entry point; ciphertexts built by the judge (never by the library) '
         'are decrypted with the right passphrase and with passphrases a library might conflate; two independent judges (Python BIP38 and the extracted Gallina spec); '
-        'counting os.urandom installed before import.',
+        'counting os.urandom installed before import.'
+        ' Round 3: wrong-passphrase matrix through every import entry point and argument (Key / HDKey with every witness type, multisig, compressed, bip38_decrypt), compatibility-character passphrases in every intermediate-code branch and lot/sequence boundary, judged by both spec judges.',
    design_ref='DESIGN.md section 6 C15, section 9',
    note='Partial: freshness is a statement about WHICH draw each call uses; the quality of os.urandom is outside. scrypt/AES are oracles with the single '
         'hypothesis aes_dec k (aes_enc k b) = b; Base58 round trip and curve module laws are premises in the statements. Four known findings '
@@ -248,7 +259,8 @@ CHECKS = {
         'specification table Model/SpecNetworks.v written from the reference clients chain parameters, SLIP-0132/0044 and BIP173/350: an edited row breaks a proof and '
         'names the field), address_is_standard_frozen, address_by_name_is_standard, frozen_table_is_reference_except_deviations. Tie: boundary/sparse/random scalars and the refused set through every format, every public encoding, 250+ off-curve x, '
         'every network x script type x encoding x entry point in the quick tier (three-way: library, extracted frozen Coq table, frozen Python table); independent '
-        'pure-Python curve/hash/address oracle whose version bytes come from harness/spec_networks.py, never from /repo.',
+        'pure-Python curve/hash/address oracle whose version bytes come from harness/spec_networks.py, never from /repo.'
+        ' Round 3: addrx requests (the full script_type x encoding x witness_type argument cube of Address / Key.address / HDKey.address / Address.parse on every network) and sess requests (address reads interleaved with network_change and flag changes on one key object), oracle-level; two known findings (p2tr_explicit_taproot_witver0, address_prefix_arg_reuses_cached_object).',
    design_ref='DESIGN.md section 6 C04, section 9',
    note='Primality of p and on_curve(d.G) are premises (no primality certificate checker / EC library installed); the group law is not proved; fastecdsa point '
         'multiplication and the hash transcriptions are validated by correspondence. Five known findings (incl. regtest carrying mainnet version bytes); four defects repaired. Closed under the global context.',
@@ -281,7 +293,8 @@ CHECKS = {
         'BIP143 published vectors; signatures in raw() checked by an independent verifier over the spec digest. Life cycle of one Transaction object: 21 kinds of '
         'in-place mutation / re-signing steps (add_input with its BIP68 version upgrade, set_locktime_*, sign_and_update, shuffle, merge, attribute writes) are modelled; '
         'lib_digest_depends_only_on_fields, session_no_hidden_state, session_digest_is_fresh_digest, version_copies_agree, session_digest_ok: after any list of steps the '
-        'digest is the consensus digest of what raw() serialises now; sessions are replayed on real objects with an oracle that re-parses raw() at every observation.',
+        'digest is the consensus digest of what raw() serialises now; sessions are replayed on real objects with an oracle that re-parses raw() at every observation.'
+        ' Round 3: inputs described WITHOUT their keys (address / public_hash / locking_script / redeemscript only, keys supplied later to sign() as Key, HDKey, hex, bytes, WIF) as session start forms; known finding nested_p2wpkh_from_locking_script.',
    design_ref='DESIGN.md section 6 C01, section 9',
    note='Closed under the global context. The legacy path ignores non-ALL hash types (known finding legacy_non_all, refuted in Coq); OP_CODESEPARATOR and taproot '
         'digests are outside the model. Three defects repaired by fix: commits (BIP143 hashOutputs SINGLE/NONE swapped; input chosen by index_n attribute; stale scriptSig after re-signing a P2PK input). '
@@ -299,7 +312,8 @@ CHECKS = {
         ' Committed fields through hand-off: lib_create_fields (anti-fee-sniping locktime, RBF / locktime sequence rule, change), handoff_preserves_committed_fields, '
         'dict_handoff_fields / raw_handoff_fields (after fixes C10-3/4 every channel preserves every committed field), create_signals_rbf, create_locktime_enforced, '
         'm_signers_suffice_committed, tx_verifies_iff_every_input, input_verifies_iff_m_signers. Tie: cer2 ceremonies with non-default spends (RBF, locktimes, fees, 1-3 inputs and '
-        'outputs, change), watch-only key signing; after every step an independent parser + sighash + ECDSA + CHECKMULTISIG oracle re-checks the fields and the verdict.',
+        'outputs, change), watch-only key signing; after every step an independent parser + sighash + ECDSA + CHECKMULTISIG oracle re-checks the fields and the verdict.'
+        ' Round 3: funding outputs at indices 0..2^32-2, shared funding txids, txids with zero bytes: handoff_keeps_output_index, outpoints_distinct.',
    design_ref='DESIGN.md section 6 C10, section 9',
    note='Closed under the global context. ECDSA validity is abstracted (a signature is valid for exactly its signer: C13); the raw and dict hand-off channels lose or '
         'misplace signatures (two known findings with Coq refutations); four defects repaired by fix: commits. Wallet database behaviour is reached through the '
@@ -312,7 +326,8 @@ CHECKS = {
         'network_resolution_sound/refusal, xkey_network_candidates, never_cross_classified_xkey, never_cross_classified_bip38, prefix_determines_private, '
         'wif_version_never_starts_hd_prefix, hd_prefix_shape (table facts re-proved by vm_compute on every regeneration). prefixes_wif_rows_are_frozen_spec / all_rows_are_frozen_rows (regenerated table = frozen specification table), slip132_prefix_determines_metadata, xkey_roundtrip_exact_metadata, and export SESSIONS on one object: session_is_map_of_stateless_exports, session_answer_depends_on_fields_only, exports_leave_fields_unchanged, wif_after_explicit_prefix_is_plain_wif, wif_after_network_change_is_new_network, '
         'wif_after_address_follows_compressed_attribute, session_wif_roundtrip. Tie: sessions of every export method with explicit arguments, network_change, public(), encrypt on one Key/HDKey object (each answer recomputed from protocol definitions and the frozen table); exhaustive table stream (all rows, '
-        'all 256 version bytes), export/import round trips with leading-zero secrets, depths 0..255, boundary child numbers, hints on/off, mutated strings.',
+        'all 256 version bytes), export/import round trips with leading-zero secrets, depths 0..255, boundary child numbers, hints on/off, mutated strings.'
+        ' Round 3: pubrt (public-only imports in every form with points whose x or y has 1..62 leading zero nibbles, every export re-imported) and bip38rt (BIP38 through Key / HDKey / bip38_decrypt, compressed and uncompressed, every network), oracle-level.',
    design_ref='DESIGN.md section 6 C12, section 9',
    note='Closed under the global context. Point (de)compression is an abstract pair of maps here (C04 proves it); SHA-256 is the executable Gallina one. One known '
         'finding (HDKey compressed=False is not representable in BIP32 serialisation); three defects repaired by fix: commits (incl. the WIF cache ignoring the compressed flag, found by the session stream).',
